@@ -6,7 +6,7 @@ from ..linear import linear, relation, fmt, rel_str
 from ..symb import feasible_reach, feasible_armed_reach
 from ..charclass import byteset, describe, CTYPE, bytevalue, _truth as byte_truth
 from ..inteval import ieval
-from .common import strip_casts, short, comparison, once_init, iteration_starts
+from .common import strip_casts, short, comparison, once_init, iteration_starts, stale_across_iterations
 from . import c14
 from .c07 import _select_kind
 
@@ -514,18 +514,7 @@ def rule_r8(ck, prog, rule='C15.R8', fn='baggage::Baggage::FromHeader'):
         raise AnalysisBroken('C15.R8: member loop of %s not found' % fn)
     lp = loops[0]
     body = set(f.subtree(lp['body']))
-    starts = iteration_starts(g, f, lp)
-    if len(starts) > 1 and lp.get('cnd') is not None:
-        # `a && b`: the true edge of `a` leads into the condition itself; the iteration starts where the body is entered
-        cset = set(f.subtree(lp['cnd'])) | {lp['cnd']}
-        inner = [q for q in starts if q.n is not None and q.f is f and q.n['i'] in body]
-        starts = inner or [q for q in starts if q.n is None or q.n['i'] not in cset]
-        if len(starts) > 1:
-            first = [q for q in starts if all(q.id in g.reachable_from([o]) or o is q for o in starts) is False]
-            starts = [q for q in starts if all(o is q or o.id in g.reachable_from([q]) for o in starts)][:1] or starts
-    if len(starts) != 1:
-        ck.inconclusive(rule, f, 'per-member-state-fresh', None, 'iteration start not found')
-        return
+    body = set(f.subtree(lp['body']))
     # locals written through out-parameters by calls in the body
     cand = {}
     for i in sorted(body):
@@ -541,19 +530,13 @@ def rule_r8(ck, prog, rule='C15.R8', fn='baggage::Baggage::FromHeader'):
         d = decls.get(vid)
         if d is None or d.get('t') != 'bool':
             continue
-        mentions = [p for p in g.points if p.f is f and p.n is not None and p.n['i'] in body and p.n['k'] == 'ref' and p.n.get('id') == vid]
-        strong = [p for p in g.points if p.f is f and p.n is not None and p.n['i'] in body and
-                  any(v == vid and st and not (p.n['k'] == 'binop' and p.n['op'] != '=') for (v, st, _x) in defs_in_node(f, p.n)) and
-                  not (p.n['k'] == 'declstmt' and any(dd['id'] == vid and (dd.get('static') or dd.get('tls')) for dd in p.n['decls']))]
-        if not mentions:
+        if not any(f.nodes[i]['k'] == 'ref' and f.nodes[i].get('id') == vid for i in body):
             continue
         found += 1
-        # a mention that is the left side of a (re)initialising assignment is the definition itself
-        lhs_of_def = set()
-        for p in strong:
-            if p.n['k'] == 'binop':
-                lhs_of_def |= set(f.subtree(p.n['lhs'])) | {p.n['lhs']}
-        bad = [m for m in mentions if m.n['i'] not in lhs_of_def and not g.must_pass(m, strong, src=starts[0])]
+        bad, why = stale_across_iterations(g, f, lp, vid)
+        if bad is None:
+            ck.inconclusive(rule, f, 'per-member-state-fresh:%s' % d['name'], None, why)
+            continue
         ck.verdict(not bad, rule, f, 'per-member-state-fresh:%s' % d['name'], bad[0].n if bad else None,
                    '%s is initialised in every iteration before it is used' % d['name'] if not bad else
                    'the flag %s, which calls in the member loop set through an out-parameter and which guards the insertion, is not re-initialised at the start of an iteration: once one member fails to decode every later well-formed member is dropped as well' % d['name'])
